@@ -23,7 +23,7 @@ RULE = ("correspondence (stage-wise, exact inputs): the real intermediate arrays
         "shapes, buffer counts, upsample off. Non-trivial: a peak whose maximum lies within 2 px of the window border or a "
         "window partly outside the frame (distinct = case hashes).")
 ASSUMPTIONS = [
-    "A-FFT: irfft2(rfft2(mask) * rfft2(data), s) is the circular convolution (compared with the exact direct sum, not proved)",
+    "A-FFT: numpy.fft.rfft2 / irfft2(., s) have their documented meaning (half spectrum of the 2-D DFT / inverse of its Hermitian extension) up to rounding; that the route then equals the direct circular sum is proved (corr_is_rfft_route) and compared on every run",
     "A-FLOAT: float32 kernels vs exact rational arithmetic within the stated tolerances",
 ]
 
